@@ -5,6 +5,7 @@ import Proofs.OptionsPerm
 import Proofs.OptionsNoGit
 import Proofs.OptionsSpec
 import Proofs.OptionsPost
+import Proofs.OptionsValues
 /-!
 C13 — option values resolve by the documented precedence, deterministically.
 
@@ -105,24 +106,25 @@ theorem all_getters_env_first : ∀ ty : GType, envFirst ty = true := by
   cases ty <;> decide
 
 /-- For every getter type, a key of the main `[delta]` section given in `GIT_CONFIG_PARAMETERS`
-    (`git -c delta.k=v`) with a value the getter takes wins over whatever the file says. -/
-theorem git_config_parameters_override_file (g : GitCfg) (ty : GType) (k : Name) (v : String)
-    (he : g.enabled = true) (hp : lookup k g.params = some v) (ha : envAccepts ty v = true) :
-    g.getT ty none k = some v := by
+    (`git -c delta.k=v`) with a text the getter takes (`envRead ty v = some r`: `r` is its reading)
+    wins over whatever the file says. -/
+theorem git_config_parameters_override_file (g : GitCfg) (ty : GType) (k : Name) (v r : String)
+    (he : g.enabled = true) (hp : lookup k g.params = some v) (ha : envRead ty v = some r) :
+    g.getT ty none k = some r := by
   unfold GitCfg.getT
-  simp [he, hp, ha, all_getters_env_first ty, Option.filter]
+  simp [he, hp, ha, all_getters_env_first ty]
 
 /-- … lifted through `effective_value_spec`: unless the option is given on the command line, its
     effective value is the `GIT_CONFIG_PARAMETERS` value — the file's `[delta]` section, every
     feature and every builtin default notwithstanding. -/
 theorem git_config_parameters_override_effective (π : List Name) (inp : Inputs) (g : GitCfg)
-    (o : Name) (v : String) (hg : finalConfig inp = some g) (he : g.enabled = true)
+    (o : Name) (v r : String) (hg : finalConfig inp = some g) (he : g.enabled = true)
     (hcli : lookup o inp.cli = none) (hp : lookup o g.params = some v)
-    (ha : envAccepts (optionType o) v = true) :
-    effective π inp o = .git v := by
+    (ha : envRead (optionType o) v = some r) :
+    effective π inp o = .git r := by
   rw [effective_value_spec]
   unfold layers
-  simp [hcli, hg, optGet, git_config_parameters_override_file g (optionType o) o v he hp ha, firstSome]
+  simp [hcli, hg, optGet, git_config_parameters_override_file g (optionType o) o v r he hp ha, firstSome]
 
 /-- `[delta] width = 60, tabs = 3, max-line-distance = 0.3, navigate = false, file-style = green`
     in the file, all five overridden by `git -c`, and a feature that sets them as well. -/
@@ -146,6 +148,273 @@ example : (effective sortedNames both "width", effective sortedNames both "tabs"
 -- a parameter text the typed getter does not take falls through to the file
 example : effective sortedNames { both with params := [("tabs", "x"), ("navigate", "yes")] } "tabs" = .git "3" ∧
     effective sortedNames { both with params := [("tabs", "x"), ("navigate", "yes")] } "navigate" = .git "false" := by
+  decide
+
+/-! ### A source sets an option iff the key is present — however the value is spelled -/
+
+/-- `file_value_read_as_git`. For every getter type (`String`, `Option<String>`, `bool`, `usize`,
+    `f64`) and every value git itself accepts for that type — git's integer syntax with unit
+    suffixes, hexadecimal and octal; `true/yes/on/1`, `false/no/off/0`, the empty value and a key
+    without value for booleans; Rust's float syntax; any text — the file half of the getter
+    (`get_string` / `get_bool` / `get_i64` and what the impl does next; which, is regenerated from
+    src/git_config/mod.rs: `Generated.Options.getterParsers`) returns git's own reading of it. So
+    the spelling never makes a source of the file "not set" the option. -/
+theorem file_value_read_as_git (ty : GType) (v r : String)
+    (h : gitReading ty.name (fileValue v) = some r) : fileRead ty v = some r := by
+  cases ty
+  · have hp : (parsersOf GType.string.name).2 = "git-string" := by decide
+    unfold fileRead
+    rw [hp, fileReadBy_gitString]
+    rw [show GType.string.name = "string" from rfl, gitReading_string] at h
+    exact h
+  · have hp : (parsersOf GType.optString.name).2 = "git-string" := by decide
+    unfold fileRead
+    rw [hp, fileReadBy_gitString]
+    rw [show GType.optString.name = "optString" from rfl, gitReading_optString] at h
+    exact h
+  · have hp : (parsersOf GType.bool.name).2 = "git-bool" := by decide
+    unfold fileRead
+    rw [hp, fileReadBy_gitBool]
+    rw [show GType.bool.name = "bool" from rfl, gitReading_bool] at h
+    exact h
+  · have hp : (parsersOf GType.usize.name).2 = "git-i64-as-usize" := by decide
+    unfold fileRead
+    rw [hp]
+    exact fileReadBy_gitI64_eq_gitReading v r h
+  · have hp : (parsersOf GType.f64.name).2 = "string-parse-f64" := by decide
+    unfold fileRead
+    rw [hp]
+    exact fileReadBy_parseF64_eq_gitReading v r h
+
+-- what git reads, and what the getters read, for some spellings (`bareMark`: a key without value)
+example : [gitReading "usize" (some "1k"), gitReading "usize" (some "0x10"), gitReading "usize" (some "010"),
+    gitReading "usize" (some "+5"), gitReading "usize" (some "2M"), gitReading "usize" (some "1kb"),
+    gitReading "usize" (some ""), gitReading "usize" none, gitReading "usize" (some "-1")] =
+    [some "1024", some "16", some "8", some "5", some "2097152", none, none, none, none] := by decide
+example : (["true", "Yes", "ON", "1", "-1", "1k", bareMark].map (fileRead .bool),
+    ["false", "No", "oFF", "0", "00", ""].map (fileRead .bool), ["t", "maybe", "2147483648"].map (fileRead .bool)) =
+    ([some "true", some "true", some "true", some "true", some "true", some "true", some "true"],
+     [some "false", some "false", some "false", some "false", some "false", some "false"],
+     [none, none, none]) := by decide
+example : ["0.3", ".5", "5.", "5e-1", "+0.5", "inf", "1k", "0x1", "", " 0.5", bareMark].map (fileRead .f64) =
+    [some "0.3", some ".5", some "5.", some "5e-1", some "+0.5", some "inf", none, none, none, none, none] := by decide
+example : (fileRead .string bareMark, fileRead .optString "", fileRead .usize "8g", fileRead .usize "-1") =
+    (some "", some "", some "8589934592", some "18446744073709551615") := by decide
+
+/-- `git_integer_syntax_sets`. The documented integer syntax of git config, for every number of
+    digits: a decimal number (no leading zero), alone or followed by a unit `k`/`K`, `m`/`M`,
+    `g`/`G`, whose product with 1024 / 1024² / 1024³ is an `int64_t`, is read by the `usize` getter's
+    file half as that product. -/
+theorem git_integer_syntax_sets (c : Char) (ds : List Char) (hc : digitVal c < 10) (hc0 : c ≠ '0')
+    (hd : ∀ x ∈ ds, digitVal x < 10) :
+    (decVal (c :: ds) ≤ 9223372036854775807 →
+      fileRead .usize (String.ofList (c :: ds)) = some (toString (decVal (c :: ds)))) ∧
+    (∀ (u : Char) (f : Nat), unitFactor u = some f → decVal (c :: ds) * f ≤ 9223372036854775807 →
+      fileRead .usize (String.ofList (c :: ds ++ [u])) = some (toString (decVal (c :: ds) * f))) := by
+  have hne : ∀ l : List Char, String.ofList (c :: l) ≠ bareMark := by
+    intro l h
+    have := congrArg String.toList h
+    simp only [String.toList_ofList, bareMark] at this
+    have hc' : c = Char.ofNat 0 := by
+      have := List.head_eq_of_cons_eq this
+      exact this
+    subst hc'
+    revert hc; decide
+  constructor
+  · intro hfit
+    apply file_value_read_as_git
+    rw [show GType.usize.name = "usize" from rfl, gitReading_usize]
+    simp only [fileValue, hne ds, ↓reduceIte, gitParseInt64_decimal c ds hc hc0 hd hfit, Option.bind_some]
+    simp
+  · intro u f hu hfit
+    apply file_value_read_as_git
+    have hv : fileValue (String.ofList (c :: ds ++ [u])) = some (String.ofList (c :: ds ++ [u])) := by
+      unfold fileValue
+      exact if_neg (hne (ds ++ [u]))
+    rw [show GType.usize.name = "usize" from rfl, gitReading_usize, hv,
+      gitParseInt64_decimal_unit c ds u f hc hc0 hd hu hfit]
+    have h0 : (0 : Int) ≤ ((decVal (c :: ds) * f : Nat) : Int) := Int.natCast_nonneg _
+    simp only [Option.bind_some, h0, ↓reduceIte, Int.toNat_natCast]
+
+example : digitVal '3' < 10 ∧ ('3' : Char) ≠ '0' ∧ (∀ x ∈ ['0', '7'], digitVal x < 10) ∧
+    unitFactor 'k' = some 1024 ∧ decVal ['3', '0', '7'] * 1024 = 314368 ∧
+    fileRead .usize "307k" = some "314368" := by decide
+
+/-- `git_bool_spellings_set`. The boolean spellings of git config: `true` / `yes` / `on` in any
+    letter case and a key written without a value are read as true, `false` / `no` / `off` in any
+    case and the empty value as false (integers: `example` above) — by the `bool` getter's file half. -/
+theorem git_bool_spellings_set (v : String) :
+    ((v = bareMark ∨ eqIgnoreAsciiCase v "true" = true ∨ eqIgnoreAsciiCase v "yes" = true ∨
+        eqIgnoreAsciiCase v "on" = true) → fileRead .bool v = some "true") ∧
+    ((eqIgnoreAsciiCase v "false" = true ∨ eqIgnoreAsciiCase v "no" = true ∨
+        eqIgnoreAsciiCase v "off" = true ∨ v = "") → fileRead .bool v = some "false") := by
+  constructor
+  · intro h
+    apply file_value_read_as_git
+    rw [show GType.bool.name = "bool" from rfl, gitReading_bool, gitParseBool_true_words]
+    · rfl
+    · unfold fileValue
+      by_cases hb : v = bareMark
+      · left; simp [hb]
+      · right
+        refine ⟨v, by simp [hb], ?_⟩
+        rcases h with h | h | h | h
+        · exact absurd h hb
+        · exact Or.inl h
+        · exact Or.inr (Or.inl h)
+        · exact Or.inr (Or.inr h)
+  · intro h
+    apply file_value_read_as_git
+    have hb : v ≠ bareMark := by
+      intro hb; subst hb; revert h; decide
+    rw [show GType.bool.name = "bool" from rfl, gitReading_bool]
+    unfold fileValue
+    rw [if_neg hb, gitParseBool_false_words v h]
+    rfl
+
+example : eqIgnoreAsciiCase "YeS" "yes" = true ∧ eqIgnoreAsciiCase "oFF" "off" = true ∧
+    fileRead .bool "YeS" = some "true" ∧ fileRead .bool "oFF" = some "false" := by decide
+
+/-- `section_sets_iff_key_present`. A `[delta "f"]` section sets option `k` (read at type `ty`)
+    exactly when the key is present — whatever its spelling, as long as git accepts the value for
+    the type — and the value it contributes is git's reading of it. -/
+theorem section_sets_iff_key_present (g : GitCfg) (ty : GType) (f k : Name)
+    (sct : List (Name × String)) (he : g.enabled = true) (hs : lookup f g.file.sections = some sct)
+    (hlang : ∀ v, lookup k sct = some v → (gitReading ty.name (fileValue v)).isSome = true) :
+    g.getT ty (some f) k = (lookup k sct).bind (fun v => gitReading ty.name (fileValue v)) ∧
+    ((g.getT ty (some f) k).isSome = (lookup k sct).isSome) := by
+  unfold GitCfg.getT
+  simp only [he, ↓reduceIte, hs]
+  cases hk : lookup k sct with
+  | none => simp
+  | some v =>
+    have := hlang v hk
+    cases hr : gitReading ty.name (fileValue v) with
+    | none => simp [hr] at this
+    | some r => simp [file_value_read_as_git ty v r hr, hr]
+
+/-- `main_section_sets_iff_key_present`. The main section (file and `GIT_CONFIG_PARAMETERS`) sets
+    option `k` exactly when the key is present in one of the two, provided the file value is one git
+    accepts for the type and the `GIT_CONFIG_PARAMETERS` text is one the getter's own first half
+    takes (see `params_git_spelling_not_read`: on the unchanged tree that half is narrower than git
+    for `bool` and `usize`). -/
+theorem main_section_sets_iff_key_present (g : GitCfg) (ty : GType) (k : Name) (he : g.enabled = true)
+    (hfile : ∀ v, lookup k g.file.main = some v → (gitReading ty.name (fileValue v)).isSome = true)
+    (henv : ∀ v, lookup k g.params = some v → (envRead ty v).isSome = true) :
+    (g.getT ty none k).isSome = ((lookup k g.params).isSome || (lookup k g.file.main).isSome) := by
+  unfold GitCfg.getT
+  simp only [he, ↓reduceIte, all_getters_env_first ty]
+  cases hp : lookup k g.params with
+  | some v =>
+    have := henv v hp
+    cases hr : envRead ty v with
+    | none => simp [hr] at this
+    | some r => simp [hr]
+  | none =>
+    cases hf : lookup k g.file.main with
+    | none => simp
+    | some v =>
+      have := hfile v hf
+      cases hr : gitReading ty.name (fileValue v) with
+      | none => simp [hr] at this
+      | some r => simp [file_value_read_as_git ty v r hr]
+
+/-- `main_file_value_effective`. An option set in the `[delta]` section of the file — and neither
+    on the command line nor in `GIT_CONFIG_PARAMETERS` — has git's reading of that value as its
+    effective value, every feature and default notwithstanding: `max-line-length = 1k` is 1024,
+    not the value of some feature. -/
+theorem main_file_value_effective (π : List Name) (inp : Inputs) (g : GitCfg) (o : Name) (v r : String)
+    (hg : finalConfig inp = some g) (he : g.enabled = true) (hcli : lookup o inp.cli = none)
+    (hp : lookup o g.params = none) (hf : lookup o g.file.main = some v)
+    (hr : gitReading (optionType o).name (fileValue v) = some r) :
+    effective π inp o = .git r := by
+  rw [effective_value_spec]
+  unfold layers
+  have : g.getT (optionType o) none o = some r := by
+    unfold GitCfg.getT
+    simp [he, hp, hf, all_getters_env_first, file_value_read_as_git _ v r hr]
+  simp [hcli, hg, optGet, this, firstSome]
+
+/-- `[delta] max-line-length = 1k, tabs = 0x10, navigate = yes, line-numbers (no value),
+    max-line-distance = 5e-1`, `--features "a raw"` with `[delta "a"]` setting all of them in plain
+    spellings, `diff-stat-align-width = 2K` in `[delta "a"]` only. -/
+def spelled : Inputs :=
+  { noInputs with
+    cliFeatures := some "a raw"
+    configFile := some
+      { main := [("max-line-length", "1k"), ("tabs", "0x10"), ("navigate", "yes"), ("line-numbers", bareMark),
+                 ("max-line-distance", "5e-1")],
+        sections := [("a", [("max-line-length", "7"), ("tabs", "2"), ("navigate", "false"),
+                            ("line-numbers", "false"), ("max-line-distance", "0.9"),
+                            ("diff-stat-align-width", "2K"), ("hyperlinks", "On")])],
+        other := [] } }
+
+example : (effective sortedNames spelled "max-line-length", effective sortedNames spelled "tabs",
+    effective sortedNames spelled "navigate", effective sortedNames spelled "line-numbers",
+    effective sortedNames spelled "max-line-distance", effective sortedNames spelled "diff-stat-align-width",
+    effective sortedNames spelled "hyperlinks") =
+    (.git "1024", .git "16", .git "true", .git "true", .git "5e-1", .git "2048", .git "true") := by decide
+-- a value git rejects for the type (`fatal: bad numeric config value`) is not read: the next source is taken
+example : effective sortedNames
+    { spelled with configFile := spelled.configFile.map fun f => { f with main := [("max-line-length", "1kb")] } }
+    "max-line-length" = .git "7" := by decide
+
+/-- The `GIT_CONFIG_PARAMETERS` half reads a text git accepts as git does — for the three getter
+    types where that is true of the unchanged tree (`String`, `Option<String>`, `f64`). -/
+theorem params_value_read_as_git_partial (ty : GType) (hty : ty = .string ∨ ty = .optString ∨ ty = .f64)
+    (v r : String) (h : gitReading ty.name (some v) = some r) : envRead ty v = some r := by
+  rcases hty with hty | hty | hty <;> subst hty
+  · have hp : (parsersOf GType.string.name).1 = "string" := by decide
+    unfold envRead
+    rw [hp, envReadBy_string]
+    rw [show GType.string.name = "string" from rfl, gitReading_string] at h
+    exact h
+  · have hp : (parsersOf GType.optString.name).1 = "string" := by decide
+    unfold envRead
+    rw [hp, envReadBy_string]
+    rw [show GType.optString.name = "optString" from rfl, gitReading_optString] at h
+    exact h
+  · have hp : (parsersOf GType.f64.name).1 = "parse-f64" := by decide
+    unfold envRead
+    rw [hp]
+    exact envReadBy_parseF64_eq_gitReading v r h
+
+/-- FULL STATEMENT for the `GIT_CONFIG_PARAMETERS` half (every type) — holds as soon as the `bool`
+    and `usize` getters read that text with libgit2's own parsers (`git2::Config::parse_bool` /
+    `parse_i64`: the proposed repair, notes/fix-opts-params-git-spellings.diff); the hypothesis is a
+    fact about the regenerated `getterParsers` table. -/
+theorem params_value_read_as_git (hx : (parsersOf GType.bool.name).1 = "git-bool" ∧
+      (parsersOf GType.usize.name).1 = "git-i64-as-usize")
+    (ty : GType) (v r : String) (h : gitReading ty.name (some v) = some r) : envRead ty v = some r := by
+  cases ty
+  · exact params_value_read_as_git_partial _ (Or.inl rfl) v r h
+  · exact params_value_read_as_git_partial _ (Or.inr (Or.inl rfl)) v r h
+  · unfold envRead
+    rw [hx.1, envReadBy_gitBool]
+    rw [show GType.bool.name = "bool" from rfl, gitReading_bool] at h
+    exact h
+  · unfold envRead
+    rw [hx.2]
+    exact envReadBy_gitI64_eq_gitReading v r h
+  · exact params_value_read_as_git_partial _ (Or.inr (Or.inr rfl)) v r h
+
+/-- `[delta] navigate = true, tabs = 3` in the file; `git -c delta.navigate=no -c delta.tabs=1k`. -/
+def paramsSpelled : Inputs :=
+  { noInputs with
+    params := [("navigate", "no"), ("tabs", "1k")]
+    configFile := some { main := [("navigate", "true"), ("tabs", "3")], sections := [], other := [] } }
+
+/-- Defect (unchanged tree): the `bool` getter takes only the texts `true` / `false` from
+    `GIT_CONFIG_PARAMETERS` and the `usize` getter only what Rust's `parse::<usize>` takes, so
+    `git -c delta.navigate=no` and `git -c delta.tabs=1k` — values git reads as `false` and 1024 —
+    are silently dropped and the *file* (a lower-priority source) decides. -/
+theorem params_git_spelling_not_read (hx : (parsersOf GType.bool.name).1 = "bool-literal" ∧
+      (parsersOf GType.usize.name).1 = "parse-usize") :
+    (gitReading "bool" (some "no") = some "false" ∧ envRead .bool "no" = none ∧
+      effective sortedNames paramsSpelled "navigate" = .git "true") ∧
+    (gitReading "usize" (some "1k") = some "1024" ∧ envRead .usize "1k" = none ∧
+      effective sortedNames paramsSpelled "tabs" = .git "3") := by
+  revert hx
   decide
 
 /-! ### The statements of `set_options` around the macro -/
